@@ -107,7 +107,7 @@ class GetIndexOf:
     qualname = 'csep.core.regions.CartesianGrid2D.get_index_of'
     case = 'arrays of points, region satisfying RI'
     oracle = 'region_get_index_of'
-    properties = ('C01', 'C03')
+    properties = ('C01', 'C03', 'C20')
 
     def params(c):
         L = Lattice(c)
